@@ -18,7 +18,7 @@ ASSUMPTIONS = TRUSTED_BASE + [
     "Sound wherever no denominator vanishes (|q| != 0, non-coincident atoms).  The earlier attempt (R^T R = I, det R = 1 as constraints) stayed `unknown` in z3 nlsat and cvc5",
     "periodic Dihedral: decided compositionally -- with pbc_dist_coordinate replaced by a recording stub the real calculate() wraps exactly its three bond vectors with the system's box, and its angle is the non-periodic angle of a chain "
     "built from the wrapped vectors (rational-function identity); box-vector shift invariance then follows from the clause pbc_image_shift_invariant. Periodic Puckering likewise: exactly the five ring vectors p_i - p_0 are wrapped with the system's box and the three coordinates are the "
-    "non-periodic coordinates of the ring (0, w_1..w_5) (vector operators of the two runs get identical arguments)",
+    "non-periodic coordinates of the ring (0, w_1..w_5) (vector operators of the two runs get identical arguments); both also with the 9-component box form (only the first three entries are used)",
     "rotation invariance of Puckering: decided COMPOSITIONALLY (the brute-force identity over 18 coordinates x quaternion did not finish in 40 min): cross(Ra,Rb) = R cross(a,b) and dot(Ra,Rb) = dot(a,b) are proved as identities for generic vectors; "
     "the real calculate() then runs on positions and rotated positions with np.cross / np.dot / np.linalg.norm as recording operators (first run: fresh symbols; second run: arguments must be R times the first run's, results are R times resp. equal to the first run's, "
     "which is what the lemmas say the real operators return); the two results are identical. Reflections are not rotations and change the sign of a dihedral (checked: the back end answers `unknown` for a reflection)",
@@ -39,13 +39,14 @@ def jobs(tier):
         "distancevel_translation", "distancevel_image_shift", "distancevel_velocity_sign", "distancevel_box_form", "distancevel_unmodified",
         "position_velocity_sign", "velocity_velocity_sign", "position_velocity_unmodified",
         "dihedral_translation", "dihedral_velocity_sign", "dihedral_unmodified",
-        "puckering_translation", "puckering_unmodified", "dihedral_periodic_composition",
+        "puckering_translation", "puckering_unmodified", "dihedral_periodic_composition", "dihedral_periodic_composition_box9",
         "distancevel_engine_vel_rev", "velocity_engine_vel_rev", "distance_engine_vel_rev",
     ]
     js = [("py", {"name": n, "module": "props.C20", "fn": "run_clause", "clause": n, "cost": 5 if "pucker" in n else 1}) for n in names]
     js += [("py", {"name": n, "module": "props.C20", "fn": "run_rotation", "clause": n, "cost": 8}) for n in ("distance_rotation", "dihedral_rotation")]
     js.append(("py", {"name": "puckering_rotation", "module": "props.C20", "fn": "run_puckering_rotation", "clause": "puckering_rotation", "cost": 8}))
     js.append(("py", {"name": "puckering_periodic_composition", "module": "props.C20", "fn": "run_puckering_rotation", "clause": "puckering_periodic_composition", "mode": "periodic", "cost": 2}))
+    js.append(("py", {"name": "puckering_periodic_composition_box9", "module": "props.C20", "fn": "run_puckering_rotation", "clause": "puckering_periodic_composition_box9", "mode": "periodic", "box9": True, "cost": 2}))
     return js
 
 
@@ -240,13 +241,19 @@ def _scenario(clause):
             return neg(outs[0], outs[1]) if kind in ("distancevel", "velocity") else eq(outs[0], outs[1])
         return run
 
-    if clause == "dihedral_periodic_composition":
+    if clause in ("dihedral_periodic_composition", "dihedral_periodic_composition_box9"):
         def run(ex):
             # Periodic Dihedral = the non-periodic formula applied to the minimum images of its three bond vectors: with
             # pbc_dist_coordinate replaced by a recording stub, exactly the three bond vectors are wrapped (each with the
             # system's box) and the angle is the non-periodic angle of a chain built from the wrapped vectors.  Invariance under
             # box-vector shifts of any atom then follows from the clause pbc_image_shift_invariant (proved separately).
             s = _mk(ex, 5, 3)
+            if clause.endswith("_box9"):
+                # the 9-component box form the GROMACS driver passes: only the first three entries are lengths
+                box9 = np.empty((9,), dtype=object)
+                for i in range(9):
+                    box9[i] = s.box[i] if i < 3 else Sym(z3.Real(f"offdiag{i}"))
+                s.box = box9
             idx = (0, 1, 2, 3)
             calls = []
             real = op.pbc_dist_coordinate
@@ -555,7 +562,7 @@ def search(obname, limit=None):
     for kind in ("distance", "dihedral", "puckering"):
         if cl == f"{kind}_rotation":
             w = _native_symmetry(kind, "rotation")
-        elif cl == f"{kind}_periodic_composition":
+        elif cl in (f"{kind}_periodic_composition", f"{kind}_periodic_composition_box9"):
             w = _native_symmetry(kind, "periodic_shift")
         else:
             continue
@@ -701,6 +708,11 @@ def _puckering_rotation(spec, tier, seed):
 
     def scen(ex):
         s = _mk(ex, 7, 3)
+        if spec.get("box9"):
+            box9 = np.empty((9,), dtype=object)
+            for i in range(9):
+                box9[i] = s.box[i] if i < 3 else Sym(z3.Real(f"offdiag{i}"))
+            s.box = box9
         proxy = P()
         proxy.linalg = _LA(proxy)
         if spec.get("mode") == "periodic":
@@ -766,7 +778,7 @@ def _puckering_rotation(spec, tier, seed):
             results[nm] = "unsat" if ok and results.get(nm, "unsat") == "unsat" else "unknown"
     if not npaths:
         results["some_feasible_path"] = "unknown"
-    cname = "puckering_periodic_composition" if spec.get("mode") == "periodic" else "puckering_rotation"
+    cname = ("puckering_periodic_composition" + ("_box9" if spec.get("box9") else "")) if spec.get("mode") == "periodic" else "puckering_rotation"
     if spec.get("mode") == "periodic":
         results = {("every_vector_operation_of_the_chain_run_gets_the_same_arguments" if "vector_operation" in g else g): r for g, r in results.items() if not g.startswith("lemma_")}
     obs = [{"name": f"{cname}/{g}", "result": r, "label": "proved-per-shape", "backend": "sympy-" + sympy.__version__ + " (rational-function identities, compositional)", "time_s": round(time.time() - t0, 2),
